@@ -1610,11 +1610,15 @@ def add_invariant_checks(cls: ClassT) -> None:
             continue
 
         if name == "__init__":
-            assert inspect.isfunction(value) or isinstance(
+            # (raised explicitly: the refusal must not depend on the interpreter mode, cf. ``python -O``)
+            if not inspect.isfunction(value) and not isinstance(
                 value, _SLOT_WRAPPER_TYPE
-            ), "Expected __init__ to be either a function or a slot wrapper, but got: {}".format(
-                type(value)
-            )
+            ):
+                raise AssertionError(
+                    "Expected __init__ to be either a function or a slot wrapper, but got: {}".format(
+                        type(value)
+                    )
+                )
 
             init_func = value
             continue
